@@ -1743,6 +1743,20 @@ def _borrowing_accessor(facts, name, args):
     return True
 
 
+def _derived_impl(facts, owner):
+    """Name of the std trait when `owner` (`<ast::T as std::hash::Hash>::hash`) is the impl a `#[derive(..)]` on T generates —
+    the trait is in T's derive list and the crate has no hand-written impl of it for T — else None."""
+    m = re.match(r"^<(?:[a-z_][a-z0-9_]*::)*([A-Z]\w*)(?:<.*>)? as (?:std|core)::(?:\w+::)*(Hash|Eq|PartialEq|PartialOrd|Ord|Clone|Debug|Default)>::\w+$", owner)
+    if not m:
+        return None
+    ty, tr = m.group(1), m.group(2)
+    d_ = facts.enums.get(ty) or facts.structs.get(ty)
+    if d_ is None or tr not in facts.derives(d_):
+        return None
+    manual = [i for _, _, i in facts.impls if norm_ty(i["self_ty"]).split("<")[0] == ty and i["trait"] and norm_ty(i["trait"]).split("::")[-1].split("<")[0] == tr]
+    return None if manual else tr
+
+
 def descent_cycle(facts, owners):
     """A recursion cycle over the expression tree is well founded when every call inside it hands on either a strict
     sub-term of the caller's own input (a variable bound by destructuring, or a literal slice of such variables) or the
@@ -1901,6 +1915,8 @@ def termination(c, facts, m):
             why = "recursion over the finite tree: " + descent_cycle(facts, owners)[1]
         elif all(re.search(r" as (std::)?(fmt::)?(Debug|Clone|PartialEq|cmp::PartialEq|clone::Clone|fmt::Debug)>", o) or "std::fmt::Debug" in o or "std::clone::Clone" in o or "std::cmp::PartialEq" in o for o in owners):
             why = "derived/structural Debug/Clone/PartialEq over the finite tree"
+        elif all(_derived_impl(facts, o) for o in owners):
+            why = "derive-generated impls (%s) over the finite tree: each call descends into a field of its argument" % sorted({_derived_impl(facts, o) for o in owners})
         c.ob("C03.termination", "call graph", "cycle {%s}" % label, why is not None, why or "unrecognised recursion cycle: %s" % owners)
     # the tree cannot be cyclic: no interior mutability in the AST types
     bad = []
